@@ -171,7 +171,7 @@ func blocksReachable(fn *ssa.Function, keep edgeKeep) map[*ssa.BasicBlock]bool {
 		b := work[len(work)-1]
 		work = work[:len(work)-1]
 		for i, s := range b.Succs {
-			if keep(b, i) && !seen[s] {
+			if keep(b, i) && !edgeDead(b, i) && !seen[s] {
 				seen[s] = true
 				work = append(work, s)
 			}
@@ -208,7 +208,7 @@ func valuesUnder(fn *ssa.Function, v ssa.Value, keep edgeKeep) []ssa.Value {
 			}
 			feasible := false
 			for si, s := range pred.Succs {
-				if s == b && keep(pred, si) {
+				if s == b && keep(pred, si) && !edgeDead(pred, si) {
 					feasible = true
 				}
 			}
